@@ -220,53 +220,59 @@ def run_impl_inner(case, data):
             (d / BIN_NAME).with_suffix(".meta").write_text(mtxt)
         archive_before = sorted(str(q.relative_to(archive)) for q in archive.rglob("*")) if archive.exists() else []
         f = d / BIN_NAME                 # absolute path of the recording as the caller names it
+        extra = case.get("extra", "")
+        keep_meta = case.get("keep_meta")            # None | "orig" (delete_original, rebuild in place) | "stale"
+        ns_eff = case.get("nsamples") or case["ns"]
+        if case.get("orig_cbin"):        # the recording was compressed after acquisition: <name>.ap.cbin + .ch
+            with spikeglx.Reader(f, sort=False) as sr0:
+                sr0.compress_file(keep_original=False)
+            f = f.with_suffix(".cbin")
+        orig_bytes = f.read_bytes()
         if access == "relative":         # the caller sits in raw_ephys_data and names the file relatively
             os.chdir(raw_dir)            # (only ever executed in a child process, see run_impl)
-            given, given_raw = Path("probe00") / BIN_NAME, Path(".")
+            given, given_raw = Path("probe00") / f.name, Path(".")
         else:
             given, given_raw = f, raw_dir
         obs["orig_meta"] = dict(spikeglx.read_meta_data(f.with_suffix(".meta")))
-        conv = None
-        try:
-            if case["W"] < 576 and case["W"] % 12 == 0 and case["ns"] > case["W"]:
-                raise RuntimeError("harness guard: this window/length pair makes the real loop run forever")
-            conv = neuropixel.NP2Converter(str(given) if case.get("strpath") else given,
-                                           post_check=case.get("post_check", False),
-                                           compress=bool(case.get("compress", False)))
-            s2v = conv.sr.channel_conversion_sample2v["ap"]
-            obs["s2v_bits"] = [int(x) for x in np.asarray(s2v, dtype=np.float32).view(np.uint32)[[0, -1]]]
-            obs["s2v_dtype"] = str(s2v.dtype)
-            conv.init_params(nwindow=float(case["W"]) if case.get("wfloat") else case["W"])
-            obs["status"] = safe_int(conv.process())
-        except _Hang:
-            raise
-        except BaseException as e:      # noqa
-            obs["error"] = ("convert", type(e).__name__, str(e)[:200])
-            return obs
-        finally:
-            if conv is not None:
-                try:
-                    conv.sr.close()
-                except BaseException:   # noqa
-                    pass
-        try:                             # the original recording and its metadata must be left as they were
-            obs["orig_untouched"] = bool(np.array_equal(np.fromfile(f, dtype=np.int16), data.ravel())
-                                         and f.with_suffix(".meta").read_text() == mtxt)
-        except BaseException:           # noqa
-            obs["orig_untouched"] = False
-        try:
-            # The split of <raw>/probe00/<name> is specified to be <raw>/probe00{a..d}/<name>: the files are read
-            # from THERE (derived from the path the caller gave, links not followed), not from wherever the
+
+        def convert(overwrite=None, first=True):
+            conv = None
+            try:
+                conv = neuropixel.NP2Converter(str(given) if case.get("strpath") else given,
+                                               post_check=case.get("post_check", False) or keep_meta == "orig",
+                                               delete_original=(keep_meta == "orig"),
+                                               compress=bool(case.get("compress", False)))
+                if first:
+                    s2v = conv.sr.channel_conversion_sample2v["ap"]
+                    obs["s2v_bits"] = [int(x) for x in np.asarray(s2v, dtype=np.float32).view(np.uint32)[[0, -1]]]
+                    obs["s2v_dtype"] = str(s2v.dtype)
+                kw = {"nwindow": float(case["W"]) if case.get("wfloat") else case["W"]}
+                if extra:
+                    kw["extra"] = extra
+                if case.get("nsamples"):
+                    kw["nsamples"] = case["nsamples"]
+                conv.init_params(**kw)
+                st = conv.process() if overwrite is None else conv.process(overwrite=overwrite)
+                return conv, safe_int(st)
+            finally:
+                if conv is not None:
+                    try:
+                        conv.sr.close()
+                    except BaseException:   # noqa
+                        pass
+
+        def collect(conv):
+            # The split of <raw>/probe00/<name> is specified to be <raw>/probe00{a..d}<extra>/<name>.ap.bin: the files
+            # are read from THERE (derived from the path the caller gave, links not followed), not from wherever the
             # converter says it wrote them; what it reports is compared with that location.
             want = sorted(set(case["labels"]))
-            items = list(conv.shank_info.items())
-            obs["reported"] = []
-            for j, (key, info) in enumerate(items):
+            out, reported = [], []
+            for j, (key, info) in enumerate(list(conv.shank_info.items())):
                 rep = Path(info["ap_file"])
                 chns = [int(c) for c in np.asarray(info["chns"]).ravel()]
-                folder = raw_dir / ("probe00" + chr(97 + want[j])) if j < len(want) else rep.parent
+                folder = raw_dir / ("probe00" + chr(97 + want[j]) + extra) if j < len(want) else rep.parent
                 apf = folder / (BIN_NAME if rep.suffix != ".cbin" else Path(BIN_NAME).with_suffix(".cbin").name)
-                obs["reported"].append((os.path.abspath(os.path.join(str(raw_dir), str(rep))), str(apf)))
+                reported.append((os.path.abspath(os.path.join(str(raw_dir), str(rep))), str(apf)))
                 if apf.suffix == ".cbin":       # compress=True: read the compressed shank file back
                     with spikeglx.Reader(apf, sort=False) as srs:
                         raw = np.array(srs._raw[0:srs.ns, :], dtype=np.int16).ravel()
@@ -276,25 +282,81 @@ def run_impl_inner(case, data):
                     raw = np.fromfile(apf, dtype=np.int16)
                     nbytes = apf.stat().st_size
                 meta = dict(spikeglx.read_meta_data(apf.with_suffix(".meta")))
-                obs["shanks"].append({"key": key, "folder": apf.parent.name, "chns": chns, "raw": raw,
-                                      "meta": meta, "nbytes": nbytes})
+                out.append({"key": key, "folder": apf.parent.name, "chns": chns, "raw": raw,
+                            "meta": meta, "nbytes": nbytes})
+            return out, reported
+
+        def stray():
+            return [x for x in (sorted(str(q.relative_to(archive)) for q in archive.rglob("*"))
+                                if archive.exists() else []) if x not in archive_before][:6]
+
+        try:
+            if case["W"] < 576 and case["W"] % 12 == 0 and case["ns"] > case["W"]:
+                raise RuntimeError("harness guard: this window/length pair makes the real loop run forever")
+            conv, obs["status"] = convert()
+        except _Hang:
+            raise
+        except BaseException as e:      # noqa
+            obs["error"] = ("convert", type(e).__name__, str(e)[:200])
+            return obs
+        try:                             # the original recording and its metadata must be left as they were
+            meta_same = f.with_suffix(".meta").read_text() == mtxt
+            if keep_meta == "orig":      # delete_original=True after a completed post-check: only the binary goes
+                obs["orig_deleted"] = not f.exists()
+                obs["orig_untouched"] = bool(meta_same)
+            else:
+                obs["orig_untouched"] = bool(meta_same and f.read_bytes() == orig_bytes)
+        except BaseException:           # noqa
+            obs["orig_untouched"] = False
+        try:
+            obs["shanks"], obs["reported"] = collect(conv)
+            if case.get("again"):
+                # same object state as a user would have: the recording is replaced by another one of the same shape,
+                # a second run without overwrite must leave the shank files alone, a third with overwrite redoes them
+                first_raw = [x["raw"].copy() for x in obs["shanks"]]
+                data2 = data.copy()
+                data2[:, :-1] = ~data[:, :-1]          # every AP sample differs; the sync row counter stays
+                data2.tofile(f)
+                _, st2 = convert()
+                kept, _ = collect(conv)
+                same = len(kept) == len(first_raw) and all(np.array_equal(x["raw"], y) for x, y in zip(kept, first_raw))
+                conv, st3 = convert(overwrite=True)
+                obs["shanks"], obs["reported"] = collect(conv)
+                changed = len(obs["shanks"]) == len(first_raw) and all(
+                    not np.array_equal(x["raw"], y) for x, y in zip(obs["shanks"], first_raw))
+                obs["again"] = {"status_no_overwrite": st2, "files_unchanged": bool(same), "status_overwrite": st3,
+                                "files_redone": bool(changed)}
+                obs["data_final"] = data2
         except _Hang:
             raise
         except BaseException as e:      # noqa  (the shank files are not where the split is specified to be / unreadable)
             obs["error"] = ("collect", type(e).__name__, str(e)[:200])
-            obs["stray"] = [x for x in (sorted(str(q.relative_to(archive)) for q in archive.rglob("*"))
-                                        if archive.exists() else []) if x not in archive_before][:6]
+            obs["stray"] = stray()
             return obs
-        obs["stray"] = [x for x in (sorted(str(q.relative_to(archive)) for q in archive.rglob("*"))
-                                    if archive.exists() else []) if x not in archive_before][:6]
+        obs["stray"] = stray()
         obs["folders"] = sorted(p.name for p in raw_dir.iterdir() if p.name not in ("probe00", "archive"))
-        # reconstruct into a fresh probe00 directory
-        shutil.move(str(d), str(base / "orig_moved"))
+        # reconstruct: into a fresh probe00 directory, or (keep_meta) into one that already holds a .meta
         try:
-            rec = neuropixel.NP2Reconstructor(given_raw, "probe00", compress=False)
+            if keep_meta != "orig":
+                shutil.move(str(d), str(base / "orig_moved"))
+            if keep_meta == "stale":     # a .meta of another (longer) recording is lying in the target folder
+                stale_size = ns_eff * (case["nap"] + 1) * 2 + 770
+                d.mkdir()
+                (d / BIN_NAME).with_suffix(".meta").write_text(
+                    re.sub(r"(?m)^fileSizeBytes=.*$", "fileSizeBytes=%d" % stale_size, mtxt))
+                obs["existing"] = (2, stale_size)
+            elif keep_meta == "orig":
+                obs["existing"] = (1, 0)
+            rec = neuropixel.NP2Reconstructor(given_raw, "probe00", compress=bool(case.get("rcompress", False)))
             rstatus = rec.process()
             rf = raw_dir / "probe00" / BIN_NAME
-            obs["recon"] = {"status": safe_int(rstatus), "raw": np.fromfile(rf, dtype=np.int16),
+            if case.get("rcompress"):
+                with spikeglx.Reader(rf.with_suffix(".cbin"), sort=False) as srr:
+                    rraw = np.array(srr._raw[0:srr.ns, :], dtype=np.int16).ravel()
+                obs["recon_left_bin"] = rf.exists()
+            else:
+                rraw = np.fromfile(rf, dtype=np.int16)
+            obs["recon"] = {"status": safe_int(rstatus), "raw": rraw,
                             "meta": dict(spikeglx.read_meta_data(rf.with_suffix(".meta")))}
         except _Hang:
             raise
@@ -336,8 +398,20 @@ def oracle(case, data, obs):
         extra = (" (new files next to the link targets instead: %s)" % obs["stray"][:3]) if obs.get("stray") else ""
         kind = "location" if (obs["error"][0] == "collect" and obs["error"][1] == "FileNotFoundError") else "exception"
         return [(kind, "%s raised %s: %s" % tuple(obs["error"]) + extra)]
-    nap, ns = case["nap"], case["ns"]
+    nap, ns = case["nap"], case.get("nsamples") or case["ns"]
+    data = data[:ns]
+    xtr = case.get("extra", "")
     labels = np.array(case["labels"])
+    ag = obs.get("again")
+    if ag and (ag["status_no_overwrite"] != 0 or not ag["files_unchanged"]):
+        bad.append(("rerun", "a second process() without overwrite returned %r and %s the existing shank files"
+                    % (ag["status_no_overwrite"], "left" if ag["files_unchanged"] else "CHANGED")))
+    if ag and ag["status_overwrite"] != 1:
+        bad.append(("rerun", "process(overwrite=True) returned %r" % ag["status_overwrite"]))
+    if case.get("keep_meta") == "orig" and not obs.get("orig_deleted"):
+        bad.append(("original", "delete_original=True after a completed post-check left the original binary"))
+    if case.get("rcompress") and obs.get("recon_left_bin"):
+        bad.append(("compress", "NP2Reconstructor(compress=True) left the uncompressed binary"))
     if obs.get("status") != 1:
         bad.append(("status", "process() returned %r" % obs.get("status")))
     for rep, exp in obs.get("reported", []):
@@ -351,7 +425,7 @@ def oracle(case, data, obs):
         bad.append(("original", "the original .ap.bin / .ap.meta were modified by the conversion"))
     want = sorted(set(case["labels"]))
     got = [s["folder"] for s in obs["shanks"]]
-    if got != ["probe00" + chr(97 + s) for s in want] or obs["folders"] != sorted(got):
+    if got != ["probe00" + chr(97 + s) + xtr for s in want] or obs["folders"] != sorted(got):
         bad.append(("folders", "shank folders %s for shanks %s" % (obs["folders"], want)))
         return bad
     for sh, s in zip(want, obs["shanks"]):
@@ -375,8 +449,11 @@ def oracle(case, data, obs):
         diff = np.flatnonzero(rec["raw"][:n] != data.ravel()[:n])
         bad.append(("recon_bytes", "reconstructed binary differs from the original (%d vs %d values, first "
                     "difference at value %s)" % (rec["raw"].size, data.size, diff[:1].tolist())))
-    om, rm = obs["orig_meta"], rec["meta"]
-    exp_items = list(om.items()) + [("original_meta", "False")]
+    om, rm = dict(obs["orig_meta"]), rec["meta"]
+    if case.get("nsamples"):            # only a prefix was split on request: the size field follows the rebuilt file
+        om["fileSizeBytes"] = float(data.size * 2)
+    # the original's own .meta still in place with the right size is kept as it is; otherwise original + flag
+    exp_items = list(om.items()) + ([] if case.get("keep_meta") == "orig" else [("original_meta", "False")])
     if list(rm.items()) != exp_items:
         ka, kb = [k for k, _ in rm.items()], [k for k, _ in exp_items]
         dk = [k for k in kb if k not in rm or rm[k] != dict(exp_items)[k]] + [k for k in ka if k not in kb]
@@ -454,7 +531,7 @@ def layout_case(case, obs):
     subset strings and their parse by the real _get_chans."""
     _, neuropixel = _impl()
     nap = case["nap"]
-    inp = [2, case["ns"], case["W"], nap, 1, nap + 1, len(case["labels"])] + list(case["labels"])
+    inp = [2, case.get("nsamples") or case["ns"], case["W"], nap, 1, nap + 1, len(case["labels"])] + list(case["labels"])
     exp_err = expected_status(case["W"])
     if exp_err:
         st = 1 if exp_err[1] == "AssertionError" else 2
@@ -531,7 +608,8 @@ def full_case(case, data, obs):
     """mode 3: the whole recording through the model: every shank file and the reconstructed file."""
     nap = case["nap"]
     num, den, maxint = case["gain"]
-    inp = [3, num, den, maxint, case["ns"], case["W"], nap, 1, nap + 1, len(case["labels"])] + list(case["labels"])
+    inp = [3, num, den, maxint, case.get("nsamples") or case["ns"], case["W"], nap, 1, nap + 1,
+           len(case["labels"])] + list(case["labels"])
     inp += [data.shape[0]] + data.ravel().tolist()
     out = [1, len(obs["shanks"])]
     for s in obs["shanks"]:
@@ -552,15 +630,29 @@ def meta_cases(case, obs):
     nch = case["nap"] + 1
     for i, s in enumerate(obs["shanks"]):
         it = Interner()
-        with_rec = 1 if (i == 0 and obs["recon"] is not None) else 0
+        with_rec = 1 if (i == 0 and obs["recon"] is not None and not obs.get("existing")) else 0
         fs_rec = int(obs["recon"]["raw"].size * 2) if with_rec else 0
-        sh = (s["folder"][-1:].encode() or b"?")[0] - 97
+        sh = (s["folder"][len("probe00"):len("probe00") + 1].encode() or b"?")[0] - 97   # probe00<letter><extra>
         inp = [4, with_rec, sh, s["nbytes"], nch, fs_rec, len(s["chns"])] + s["chns"] + it.meta(obs["orig_meta"])
         out = [1] + it.meta(s["meta"])
         if with_rec:
             out += [1] + it.meta(obs["recon"]["meta"])
         res.append((inp, out))
+        if i == 0 and obs["recon"] is not None and obs.get("existing"):
+            kind, v = obs["existing"]       # a .meta was already lying in the target folder (mode 7)
+            it7 = Interner()
+            inp7 = [7, kind, v, sh, s["nbytes"], nch, int(obs["recon"]["raw"].size * 2), len(s["chns"])] + s["chns"] \
+                + it7.meta(obs["orig_meta"])
+            res.append((inp7, [1] + it7.meta(obs["recon"]["meta"])))
     return res
+
+
+def rerun_cases(obs):
+    """mode 6: status / whether the shank files are this call's, for the three calls of the re-run sequence"""
+    ag = obs["again"]
+    return [([6, 0, 0], [safe_int(obs.get("status")), 1]),
+            ([6, 1, 0], [ag["status_no_overwrite"], 0 if ag["files_unchanged"] else 1]),
+            ([6, 1, 1], [ag["status_overwrite"], 1 if ag["files_redone"] else 0])]
 
 
 def codec_case(chns):
@@ -706,6 +798,29 @@ def gen_cases(ctx):
         nap = rng.choice([2, 3, 384]) if W == 300 else rng.choice([1, 2, 4])
         cases.append({"nap": nap, "ns": ns, "W": W, "labels": gen_labels(rng, nap), "gain": rng.choice(GAINS),
                       "template": rng.randrange(len(TEMPLATES)), "post_check": False, "full": nap < 10})
+    # file states, call orders and options of the public API (coverage audit): assigned over the valid cases above
+    k = 0
+    for c in cases:
+        if c["W"] <= 576 or c["ns"] < 200 or c.get("allvals"):
+            continue
+        k += 1
+        r = k % 14
+        if r == 1:                      # the original is a compressed .cbin (+ .ch)
+            c.update(orig_cbin=True, access="plain")
+        elif r == 3:                    # run again without, then with, overwrite on a replaced recording
+            c.update(again=True)
+        elif r == 5:                    # delete_original after the post-check, rebuild in place next to the kept .meta
+            c.update(keep_meta="orig", access="plain")
+        elif r == 7:                    # a stale .meta of another size lies in the target folder
+            c.update(keep_meta="stale", access="plain")
+        elif r == 9:
+            c.update(extra=rng.choice(["_x", "_2s_test"]))
+        elif r == 11:
+            c.update(rcompress=True)
+        elif r == 13:                   # only a prefix is split on request
+            c.update(nsamples=rng.choice([c["ns"] - 1, max(144, c["ns"] // 2), min(c["ns"] - 1, c["W"] + 1), 577]))
+            if not (144 <= c["nsamples"] < c["ns"]):
+                c.pop("nsamples")
     # malformed window sizes
     for W in [576, 1201, 590, 1199, 7] + ([rng.randrange(577, 3000) for _ in range(10)] if ctx.thorough() else []):
         cases.append({"nap": rng.choice([2, 384]), "ns": 1500, "W": W, "labels": None, "gain": GAINS[0],
@@ -735,8 +850,9 @@ def gen_codec(ctx):
 # --------------------------------------------------------------------------
 def describe(case):
     d = {k: case[k] for k in ("nap", "ns", "W", "gain", "template", "post_check")}
-    d.update({k: bool(case.get(k, False)) for k in ("wfloat", "strpath", "compress", "allvals")})
+    d.update({k: bool(case.get(k, False)) for k in ("wfloat", "strpath", "compress", "allvals", "orig_cbin", "again", "rcompress")})
     d["access"] = case.get("access", "plain")
+    d.update({k: case.get(k) for k in ("keep_meta", "extra", "nsamples")})
     d["labels"] = case["labels"]
     d["data_seed"] = case.get("data_seed")
     return d
@@ -776,7 +892,9 @@ def run(ctx):
     dist = {"conversions": 0, "nap384": 0, "multi_window": 0, "unaligned_length": 0, "single_shank": 0,
             "four_shanks": 0, "malformed_window": 0, "post_check": 0, "multi_recon_window": 0,
             "full_model_runs": 0, "values_compared": 0, "codec_lists": 0,
-            "window_below_overlap": 0, "shorter_than_overlap": 0, "shorter_than_taper": 0, "via_symlinked_folder": 0, "via_symlinked_files": 0,
+            "window_below_overlap": 0, "original_is_cbin": 0, "rerun_sequences": 0, "rebuild_next_to_original_meta": 0,
+            "rebuild_next_to_stale_meta": 0, "folder_suffix_extra": 0, "reconstructor_compress": 0, "nsamples_prefix": 0,
+            "shorter_than_overlap": 0, "shorter_than_taper": 0, "via_symlinked_folder": 0, "via_symlinked_files": 0,
             "via_relative_path_other_cwd": 0, "all_65536_values_files": 0, "float_nwindow": 0, "str_path": 0, "compressed_shanks": 0}
     gains_seen, nontrivial, samples = set(), set(), []
     kernel_full = 0
@@ -784,6 +902,10 @@ def run(ctx):
         case["data_seed"] = ctx.rng.randrange(2 ** 31)
         data = build_data(case)
         obs = run_impl(case, data)
+        if isinstance(obs.get("data_final"), np.ndarray):   # the re-run sequence replaced the recording
+            data = obs["data_final"]
+        if case.get("nsamples"):
+            data = data[:case["nsamples"]]
         dsc = describe(case)
         try:
             verdicts = oracle(case, data, obs)
@@ -804,6 +926,13 @@ def run(ctx):
             continue
         W, ns, nap = case["W"], case["ns"], case["nap"]
         dist["float_nwindow"] += bool(case.get("wfloat"))
+        dist["original_is_cbin"] += bool(case.get("orig_cbin"))
+        dist["rerun_sequences"] += bool(obs.get("again"))
+        dist["rebuild_next_to_original_meta"] += case.get("keep_meta") == "orig"
+        dist["rebuild_next_to_stale_meta"] += case.get("keep_meta") == "stale"
+        dist["folder_suffix_extra"] += bool(case.get("extra"))
+        dist["reconstructor_compress"] += bool(case.get("rcompress"))
+        dist["nsamples_prefix"] += bool(case.get("nsamples"))
         dist["via_symlinked_folder"] += case.get("access") == "link_dir"
         dist["via_symlinked_files"] += case.get("access") == "link_files"
         dist["via_relative_path_other_cwd"] += case.get("access") == "relative"
@@ -840,6 +969,9 @@ def run(ctx):
                 dist["values_compared"] += vb[0][4]
         for mi, mo in (guarded(ctx, dsc, "metadata", meta_cases, case, obs) or []):
             inputs.append(mi), outputs.append(mo), descr.append(dict(dsc, mode="meta"))
+        if obs.get("again"):
+            for mi, mo in (guarded(ctx, dsc, "re-run", rerun_cases, obs) or []):
+                inputs.append(mi), outputs.append(mo), descr.append(dict(dsc, mode="rerun"))
         fc = guarded(ctx, dsc, "whole-file", full_case, case, data, obs) if case["full"] else None
         if fc:
             fi, fo = fc
@@ -899,11 +1031,16 @@ def replay(ctx, data):
         print("kernel-evaluated model agrees with implementation:", not ids)
         return 1 if (back != list(inp["chns"]) or ids) else 0
     case = {k: inp[k] for k in ("nap", "ns", "W", "template", "post_check", "labels", "data_seed")}
-    case.update({k: inp.get(k, False) for k in ("wfloat", "strpath", "compress", "allvals")})
+    case.update({k: inp.get(k, False) for k in ("wfloat", "strpath", "compress", "allvals", "orig_cbin", "again", "rcompress")})
     case["access"] = inp.get("access", "plain")
+    case.update({k: inp.get(k) for k in ("keep_meta", "extra", "nsamples") if inp.get(k)})
     case["gain"] = tuple(inp["gain"])
     arr = build_data(case)
     obs = run_impl(case, arr)
+    if isinstance(obs.get("data_final"), np.ndarray):
+        arr = obs["data_final"]
+    if case.get("nsamples"):
+        arr = arr[:case["nsamples"]]
     bad = oracle(case, arr, obs)
     print("case:", {k: (v if k != "labels" else str(v[:16]) + "...") for k, v in case.items()})
     print("implementation error:", obs["error"])
